@@ -88,7 +88,7 @@ namespace
                     {
                         bool w = r.chance(mostly_wait ? 5 : 1, 6);
                         int64_t hq = two_queues ? (int64_t)r.below(2) : 0;
-                        if (delegates && r.chance(1, 3)) p.ops.push_back({OP_ACT, t, 4, (r.chance(1, 4) ? 1 : 0) + (r.chance(1, 3) ? 2 : 0), hq}); // bit 1: re-arm the handler while parked
+                        if (delegates && r.chance(1, 3)) p.ops.push_back({OP_ACT, t, 4, (r.chance(1, 4) ? 1 : 0) + (r.chance(1, 3) ? 2 : 0) + (r.chance(1, 6) ? 4 : 0), hq}); // bit 1: re-arm the handler while parked; bit 2: the waiter dies while parked
                         else if (w) p.ops.push_back({OP_ACT, t, 0, r.chance(1, 4) ? (int64_t)(1 + 2 * r.below(4)) : 0, hq});
                         else
                         {
@@ -160,7 +160,7 @@ namespace
         void *dlg[thr::MAXT];
         int dlg_sel[thr::MAXT], dlg_kind[thr::MAXT];
         long dlg_expect[thr::MAXT];
-        uint64_t dlg_wakes = 0, dlg_batons = 0, dlg_refresh = 0, dlg_rearmed = 0;
+        uint64_t dlg_wakes = 0, dlg_batons = 0, dlg_refresh = 0, dlg_rearmed = 0, dlg_died_parked = 0;
         long next_u = 1000;
         uint64_t wakes_with_victim = 0, wake_raced = 0;
         // P_QUEUE
@@ -246,7 +246,7 @@ namespace
         }
         heads[0] = prog == P_WAIT ? prog_head_new() : nullptr;
         heads[1] = prog == P_WAIT ? prog_head_new() : nullptr;
-        dlg_wakes = dlg_batons = dlg_refresh = dlg_rearmed = 0;
+        dlg_wakes = dlg_batons = dlg_refresh = dlg_rearmed = dlg_died_parked = 0;
         const bool delegates = prog == P_WAIT && mod(p.c(4, 0), 2) == 1;
         for (int i = 0; i < thr::MAXT; i++)
         {
@@ -286,7 +286,7 @@ namespace
                         {
                             if (!dlg[t]) continue;
                             thr::api_enter();
-                            prog_delegate_park(dlg[t], heads[mod(a.b, 2)], (int)mod(a.a, 4));
+                            dlg[t] = prog_delegate_park(dlg[t], heads[mod(a.b, 2)], (int)mod(a.a, 8));
                             thr::api_exit();
                         }
                         else if (k == 0)
@@ -458,6 +458,7 @@ namespace
         if (dlg_batons) probe("handler_woke_next_waiter", dlg_batons);
         if (dlg_refresh) probe("delegate_refreshed_its_place", dlg_refresh);
         if (dlg_rearmed) probe("delegate_woken_through_a_handler_set_while_parked", dlg_rearmed);
+        if (dlg_died_parked) probe("delegate_waiter_destroyed_while_parked", dlg_died_parked);
         if (heads[0] && !rr.violation) { prog_head_delete(heads[0]); prog_head_delete(heads[1]); }
         if (q && !rr.violation) prog_queue_delete(q);
         heads[0] = heads[1] = q = nullptr;
@@ -593,6 +594,19 @@ extern "C"
         if (which != expected)
             fail("C20/delegate-stale-handler", "delegate waiter %d was woken through handler %d, its owner had set handler %d with waiter_delegate_init before the wake", id, which, expected);
         W->dlg_rearmed += which != 0;
+    }
+    void h_delegate_dying(int id)
+    {
+        // called under the system lock, right before the parked waiter object is destroyed: it leaves the line with it
+        for (int q = 0; q < 2; q++)
+            for (size_t i = 0; i < W->mqs[q].size(); i++)
+                if (W->mqs[q][i] == 100 + id)
+                {
+                    W->mqs[q].erase(W->mqs[q].begin() + (long)i);
+                    W->dlg_died_parked++;
+                    thr::note("model-dequeue delegate %d (destroyed while parked)", id);
+                    return;
+                }
     }
     void h_delegate_woken(int id, long fut)
     {
